@@ -8,8 +8,9 @@ Definition check (mro : list desc) : option bool :=
   option_map py_scan_result (scan py_scan_step mro py_scan_init).
 
 Definition is_reducer (b : desc) : bool := d_reduce_ex b || d_reduce b.
-Definition remote_gs (b : desc) : bool := d_getstate b && takes_remote b.
-Definition plain_gs (b : desc) : bool := d_getstate b && negb (takes_remote b) && negb (has_varkw b).
+Definition remote_gs (b : desc) : bool := d_getstate b && negb (sig_unavailable b) && takes_remote b.
+Definition plain_gs (b : desc) : bool :=
+  d_getstate b && (sig_unavailable b || (negb (takes_remote b) && negb (has_varkw b))).
 
 (* the classes that are looked at: those before the first one defining a reducer *)
 Fixpoint scanned (mro : list desc) : list desc :=
@@ -31,7 +32,7 @@ Lemma step_cases b allow has :
   else SNext (allow, has).
 Proof.
   unfold py_scan_step, is_reducer, remote_gs, plain_gs.
-  destruct b as [rx r g t v]; simpl. destruct rx, r, g, t, v, allow; reflexivity.
+  destruct b as [rx r g t v u]; simpl. destruct rx, r, g, t, v, u, allow; reflexivity.
 Qed.
 
 (* scanning with allow_remote already false: Warning iff a remote-aware __getstate__ is met *)
@@ -60,7 +61,7 @@ Proof.
       * rewrite IH. split.
         -- intros [l1 [b1 [l2 [b2 [l3 [E [H1 H2]]]]]]]. exists (b :: l1), b1, l2, b2, l3. rewrite E. auto.
         -- intros [l1 [b1 [l2 [b2 [l3 [E [H1 H2]]]]]]]. destruct l1 as [|x l1]; simpl in E; inversion E; subst.
-           ++ unfold plain_gs, remote_gs in *. destruct (d_getstate b1), (takes_remote b1); discriminate.
+           ++ unfold plain_gs, remote_gs in *. destruct (d_getstate b1), (takes_remote b1), (sig_unavailable b1); discriminate.
            ++ exists l1, b1, l2, b2, l3. auto.
       * destruct (plain_gs b) eqn:Ep.
         -- rewrite scan_disallowed. split.
